@@ -46,7 +46,7 @@ CHECKS = {
     "C17": (False, "who-may-emit-markup rule over all appends (HTX-EMIT), filterRaw provenance, lower-casing and nil-filter dominance rules, BSET superset check of the GFM predicate",
             "Emitter-side clauses: every tag the renderer itself writes goes through the FilterTag-consulting emitters, filterRaw appends only sub-slices of its input or the constant &lt;, FilterTag arguments are lower-cased names, FilterTagGFM rejects at least the nine GFM raw-text elements, and no filtering branch is taken with a nil predicate. Agreement of filterRaw's scanner with the WHATWG tokenizer is not decided.",
             "go/ssa; atom table of golang.org/x/net/html/atom read as data"),
-    "C18": (False, "eight SSA shape obligations on commonmark.Walk (W1–W8): child-function indirection, prune/abort edges, cursor coherence, post-frame ordering, traversal order",
+    "C18": (True, "eight SSA shape obligations on commonmark.Walk (W1–W8): child-function indirection, prune/abort edges, cursor coherence, post-frame ordering, traversal order",
             "Structural obligations each of which is necessary for the documented Walk contract: custom child functions used everywhere, prune path pushes nothing, abort path returns without further calls, child cursors carry the parent/index/nearest block used to fetch them, root cursor has index −1 and no parent, the post frame is pushed below the children, children are pushed in descending index and popped from the end. That these add up to exactly-once document order is an inductive argument not decided here.",
             "go/ssa form of Walk"),
     "C19": (True, "whole-module write-effect / ownership analysis over SSA with a field-based heap abstraction (EFF-G, EFF-R, EFF-X, EFF-U, DET)",
